@@ -903,7 +903,11 @@ def special_inputs_phase(ctx):
     for c0, c1 in ((0.97, 0.5), (0.5, 0.0), (0.0, 0.25)):
         p = P.Preemphasize(c0)
         p.apply(base.copy())
-        p.coeff = c1
+        try:
+            p.coeff = c1
+        except AttributeError:       # the attribute made read-only: nothing to retune
+            ctx.count("not_retunable:pre")
+            continue
         case = dict(op="pre_retuned", built_with=c0, coeff=c1, n=len(base))
         ctx.case(case, kind="retuned:pre")
         y, want = p.apply(base.copy()), P.Preemphasize(c1).apply(base.copy())
@@ -912,7 +916,11 @@ def special_inputs_phase(ctx):
                           tags=dict(op="pre", clause="value", how="retuned"))
     d = P.Dither(3.0)
     d.apply(base.copy())
-    d.coeff = 0.0
+    try:
+        d.coeff = 0.0
+    except AttributeError:
+        ctx.count("not_retunable:dither")
+        return
     case = dict(op="dither_retuned", built_with=3.0, coeff=0.0, n=len(base))
     ctx.case(case, kind="retuned:dither")
     y = d.apply(base.copy())
